@@ -3754,7 +3754,9 @@ impl Zeroconf {
     }
 
     fn exec_command_resolve(&mut self, instance: String, try_count: u16) {
-        let pending_query = self.query_unresolved(&instance);
+        // Follow-up queries are only for an instance some cached PTR still points to: when its
+        // browse was stopped (or its PTR was withdrawn) meanwhile, nobody wants it any more.
+        let pending_query = self.cache.has_ptr_to(&instance) && self.query_unresolved(&instance);
         let max_try = 3;
         if pending_query && try_count < max_try {
             // Note that if the current try already succeeds, the next retransmission
